@@ -113,7 +113,7 @@ def _run_case(ctx, case):
     stats = Counter()
     boot.forget_path(script_path)
     with core.time_limit(150):
-        s = jedi.Script(text, path=script_path)
+        s = boot.fresh_script(text, path=script_path)
         if s.get_syntax_errors():
             ctx.discard("parso reports a syntax error (grammar gap or mutation)")
             return
